@@ -50,6 +50,24 @@ func containerFor(g *Gen) interface{} {
 	}
 }
 
+// Sev prints every value alike.
+type Sev int
+
+func (Sev) String() string { return "unknown" }
+
+func lookAlikeMaps() []interface{} {
+	in := func(x int) Inner { return Inner{X: x, Y: "y"} }
+	return []interface{}{
+		map[interface{}]Inner{1: in(1), "1": in(2), true: in(1), "true": in(3), 1.0: in(2), int8(1): in(1)},
+		map[interface{}]*Inner{1: {X: 1}, "1": {X: 2}, uint(1): {X: 1}},
+		map[Sev]Inner{7: in(1), 9: in(1), 3: in(2)},
+		map[[2]string]Inner{{"a b", "c"}: in(1), {"a", "b c"}: in(2), {"a", "b"}: in(1)},
+		map[MyStr]Inner{"a": in(1), "A": in(1), "a ": in(2)},
+		map[float64]Inner{1: in(1), 1.0000000000000002: in(2), -0.0: in(1)},
+		map[Inner]Inner{{X: 1}: in(1), {X: 1, Y: "y"}: in(1), {X: 1, Hidden: "h"}: in(2)},
+	}
+}
+
 func fragFilter(g *Gen, n int, o *Out) {
 	emitF := func(text string, data interface{}) string {
 		req, ans := filterCase(text, data)
@@ -88,6 +106,45 @@ func fragFilter(g *Gen, n int, o *Out) {
 		f.Execute(s)
 		if serAny(s) != before {
 			o.finding(Finding{Property: "C17", Kind: "failing-input", What: "Execute modified its []interface{} input", Request: "filter " + hx("x == 1") + " " + before + " ( re )"})
+		}
+	}
+	// maps whose DISTINCT keys look alike (print alike, differ by type only): every entry is judged
+	// on its own, none is lost or judged twice
+	for _, lk := range lookAlikeMaps() {
+		for _, text := range []string{"X == 1", "X != 1", "X == 2 or Y == \"y\"", "not (X == 1)"} {
+			f, err := bexpr.CreateFilter(text)
+			ev, err2 := bexpr.CreateEvaluator(text)
+			if err != nil || err2 != nil {
+				continue
+			}
+			v := reflect.ValueOf(lk)
+			want := reflect.MakeMap(v.Type())
+			wantErr := false
+			for _, k := range v.MapKeys() {
+				switch safeEvaluate(ev, v.MapIndex(k).Interface()) {
+				case "T":
+					want.SetMapIndex(k, v.MapIndex(k))
+				case "F":
+				default:
+					wantErr = true
+				}
+			}
+			var got interface{}
+			var gerr error
+			func() {
+				defer func() {
+					if r := recover(); r != nil {
+						gerr = fmt.Errorf("panic: %v", r)
+					}
+				}()
+				got, gerr = f.Execute(lk)
+			}()
+			o.meta.Cases++
+			o.count("filter:look-alike-keys")
+			if wantErr != (gerr != nil) || (gerr == nil && !reflect.DeepEqual(got, want.Interface())) {
+				o.finding(Finding{Property: "C17", Kind: "failing-input", What: fmt.Sprintf("Execute over a %T whose keys look alike differs from element-wise Evaluate: got %v (err %v), want %v", lk, got, gerr, want.Interface()),
+					Request: "filter " + hx(text) + " " + serAny(lk) + " ( re )", Detail: text})
+			}
 		}
 	}
 	for i := 0; i < n; i++ {
